@@ -15,6 +15,9 @@
      opendir("todo") | readdir on it | select with a timeout > 0
    the process sends "<pid> <op> <detail>\n" on its connection and waits for one byte.  Every select is
    logged with its timeout ("select tv=<sec>").
+   SYSSHIM_KILLAT=<k> : the process dies (_exit 137) just before its k-th mutating call (unlink, link, rename,
+     open for writing/creating, write to a descriptor other than 0, fsync, ftruncate, utimes), counted per process
+   SYSSHIM_LOGDATA=<n> : bytes of data shown per logged write (default 64); SYSSHIM_LOGREAD=<fd,fd> : log reads on these
    The shim changes nothing unless told to. */
 #define _GNU_SOURCE
 #include <dlfcn.h>
@@ -73,7 +76,7 @@ static void init_rules(void) {
   }
 }
 static void slog(const char *fmt, ...) {
-  char buf[1024]; int n; va_list ap;
+  char buf[20000]; int n; va_list ap;
   if (logfd == -2) {
     const char *p = getenv("SYSSHIM_LOG");
     int (*ropen)(const char *, int, ...) = dlsym(RTLD_NEXT, "open");
@@ -87,10 +90,18 @@ static void slog(const char *fmt, ...) {
   buf[n++] = '\n';
   { ssize_t (*rwrite)(int, const void *, size_t) = dlsym(RTLD_NEXT, "write"); rwrite(logfd, buf, n); }
 }
+static long killat = -2, mutcount = 0;
+static void mutating(const char *call, const char *path) {
+  if (killat == -2) { const char *e = getenv("SYSSHIM_KILLAT"); killat = e ? atol(e) : -1; }
+  if (killat < 0) return;
+  if (++mutcount == killat) { slog("KILLAT %ld before %s %s", killat, call, path ? path : ""); _exit(137); }
+}
 /* returns errno to inject (>0) or 0 */
 static int fault(const char *call, const char *path) {
   int i;
   if (nrules < 0) init_rules();
+  if (!strcmp(call, "unlink") || !strcmp(call, "link") || !strcmp(call, "rename") || !strcmp(call, "fsync") || !strcmp(call, "ftruncate") || !strcmp(call, "utimes"))
+    mutating(call, path);
   if (have_k && !strcmp(krule.call, call) && strstr(path ? path : "", krule.sub)) {
     if (++krule.seen == krule.nth) { slog("KILL before %s %s", call, path ? path : ""); _exit(137); }
   }
@@ -161,12 +172,14 @@ int rename(const char *a, const char *b) { REAL(rename); int e = fault("rename",
 int open(const char *p, int fl, ...) { REAL(open); mode_t m = 0; int e, r; int trg = is_trigger(p);
   if (fl & O_CREAT) { va_list ap; va_start(ap, fl); m = va_arg(ap, mode_t); va_end(ap); }
   if (trg) gate((fl & O_ACCMODE) == O_WRONLY ? "openw" : "openr", p);
+  if ((fl & O_ACCMODE) != O_RDONLY || (fl & O_CREAT)) mutating("open", p);
   e = fault("open", p);
   if (e) { errno = e; slog("open %s %o = -1 %d INJECTED", p, fl, e); return -1; }
   r = real(p, fl, m); { int se = errno; slog("open %s %o = %d %d", p, fl, r, r < 0 ? se : 0); if (trg && r >= 0) { trig_fd = r; trig_w = (fl & O_ACCMODE) == O_WRONLY; } errno = se; } return r; }
 int open64(const char *p, int fl, ...) { REAL(open64); mode_t m = 0; int e, r; int trg = is_trigger(p);
   if (fl & O_CREAT) { va_list ap; va_start(ap, fl); m = va_arg(ap, mode_t); va_end(ap); }
   if (trg) gate((fl & O_ACCMODE) == O_WRONLY ? "openw" : "openr", p);
+  if ((fl & O_ACCMODE) != O_RDONLY || (fl & O_CREAT)) mutating("open", p);
   e = fault("open", p);
   if (e) { errno = e; slog("open %s %o = -1 %d INJECTED", p, fl, e); return -1; }
   r = real(p, fl, m); { int se = errno; slog("open %s %o = %d %d", p, fl, r, r < 0 ? se : 0); if (trg && r >= 0) { trig_fd = r; trig_w = (fl & O_ACCMODE) == O_WRONLY; } errno = se; } return r; }
@@ -203,7 +216,16 @@ int execv(const char *path, char *const argv[]) { REAL(execv); slog("execv %s ui
 unsigned int alarm(unsigned int secs) { REAL(alarm); slog("alarm %u", secs); return real(secs); }
 ssize_t read(int fd, void *buf, size_t n) { REAL(read); char nm[32]; int e; snprintf(nm, sizeof nm, "fd%d", fd);
   if (nrules > 0 || nrules < 0 || have_k) { e = fault("read", nm); if (e) { errno = e; slog("read %d = -1 %d INJECTED", fd, e); return -1; } }
-  return real(fd, buf, n); }
+  { static int rfds[8], nr = -1; ssize_t r; int i, hit = 0;
+    if (nr < 0) { const char *x = getenv("SYSSHIM_LOGREAD"); nr = 0; while (x && *x && nr < 8) { rfds[nr++] = atoi(x); x = strchr(x, ','); if (x) x++; } }
+    r = real(fd, buf, n);
+    for (i = 0; i < nr; i++) if (rfds[i] == fd) hit = 1;
+    if (hit) { char hex[8200]; size_t k, m = r > 0 ? (size_t) r : 0; int se = errno; if (m > 4096) m = 4096;
+      for (k = 0; k < m; k++) sprintf(hex + 2 * k, "%02x", ((unsigned char *) buf)[k]);
+      hex[2 * m] = 0; if (!m) strcpy(hex, "-"); slog("read %d %s = %zd %d", fd, hex, r, r < 0 ? se : 0); errno = se; }
+    return r; } }
+off_t lseek(int fd, off_t off, int wh) { REAL(lseek); off_t r = real(fd, off, wh); int se = errno; if (fd >= 3) slog("lseek %d %ld %d = %ld", fd, (long) off, wh, (long) r); errno = se; return r; }
+off_t lseek64(int fd, off_t off, int wh) { REAL(lseek64); off_t r = real(fd, off, wh); int se = errno; if (fd >= 3) slog("lseek %d %ld %d = %ld", fd, (long) off, wh, (long) r); errno = se; return r; }
 int utimes(const char *p, const struct timeval tv[2]) { REAL(utimes); int e = fault("utimes", p), r;
   if (e) { errno = e; slog("utimes %s = -1 %d INJECTED", p, e); return -1; }
   r = real(p, tv); { int se = errno; slog("utimes %s %ld = %d %d", p, tv ? (long) tv[1].tv_sec : -1L, r, r ? se : 0); errno = se; } return r; }
@@ -237,13 +259,16 @@ ssize_t write(int fd, const void *buf, size_t n) {
   REAL(write); static int wfd = -2; ssize_t r; char nm[32]; int e;
   if (wfd == -2) { const char *x = getenv("SYSSHIM_LOGWRITE"); wfd = x ? (!strcmp(x, "all") ? -3 : atoi(x)) : -1; }
   if (fd == trig_fd && fd >= 0 && trig_w) { gate("write", "lock/trigger"); }
+  if (fd != 0 && fd != logfd && fd != gate_fd) { snprintf(nm, sizeof nm, "fd%d", fd); mutating("write", nm); }
   if (fd != logfd && (nrules != 0 || have_k != 0)) {
     snprintf(nm, sizeof nm, "fd%d", fd); e = fault("write", nm);
     if (e) { errno = e; if (wfd != -1) slog("write %d %zu - = -1 %d INJECTED", fd, n, e); return -1; }
   }
   r = real(fd, buf, n);
   if (fd == trig_fd && fd >= 0 && trig_w) { int se = errno; slog("write trigger = %zd %d", r, r < 0 ? se : 0); errno = se; }
-  if ((fd == wfd || wfd == -3) && fd != logfd) { char hex[130]; size_t i, m = n < 64 ? n : 64; int se = errno;
+  if ((fd == wfd || wfd == -3) && fd != logfd) { static long cap = -1; char hex[8200]; size_t i, m; int se = errno;
+    if (cap < 0) { const char *x = getenv("SYSSHIM_LOGDATA"); cap = x ? atol(x) : 64; if (cap > 4096) cap = 4096; }
+    m = n < (size_t) cap ? n : (size_t) cap;
     for (i = 0; i < m; i++) sprintf(hex + 2 * i, "%02x", ((const unsigned char *) buf)[i]);
     hex[2 * m] = 0; if (!m) strcpy(hex, "-"); slog("write %d %zu %s = %zd %d", fd, n, hex, r, r < 0 ? se : 0); errno = se; }
   return r;
